@@ -98,6 +98,50 @@ def roundtrip(p):
     return mk('parquet_roundtrip', sig, pre, body)
 
 
+_SPECIALS = [0.0, -0.0, 1.5, float('inf'), None, float('nan'), 5e-324, -2.25]
+
+
+def _same(u, v):
+    import math
+    if isinstance(u, float) and isinstance(v, float):
+        if u != u or v != v:
+            return u != u and v != v
+        return u == v and math.copysign(1.0, u) == math.copysign(1.0, v)
+    if isinstance(u, dict) and isinstance(v, dict):
+        return list(u.keys()) == list(v.keys()) and all(_same(u[k], v[k]) for k in u)
+    return type(u) is type(v) and u == v
+
+
+def special_values(p):
+    """a float column over the corners of the float domain (signed zeros, infinity, subnormal, NaN) next to genuine nulls (None): the file holds, and the load
+    returns, the same cells - a NaN stays a float NaN, a null stays a null, the sign of zero is kept; the int column and both batch sizes are symbolic"""
+    n = p['n']
+    sig = [('bs', 'int'), ('lb', 'int')] + [('v%d' % i, 'int') for i in range(n)]
+    pre = ['0 <= bs <= %d' % n, '0 <= lb <= %d' % n]
+
+    def body(a):
+        bs = 1 + _sel(a[0], n + 1)
+        lb = 1 + _sel(a[1], n + 1)
+        rows = [dict(a=a[2 + i], x=_SPECIALS[(i + p.get('shift', 0)) % len(_SPECIALS)]) for i in range(n)]
+        del FA.UNMODELLED[:]
+        with Env():
+            f = FA.FFile()
+            done = []
+            D.src(rows).pipe(P.dump_to_file(f, FA.FSchema(['a', 'x']), batch_size=bs)).subscribe(on_error=lambda e: done.append(('ERR', repr(e))), on_completed=lambda: done.append('C'))
+            written = [dict(a=r[0], x=r[1]) for r in f.rows]
+            if FA.UNMODELLED:
+                from vp.harness import Inconclusive
+                raise Inconclusive('the pyarrow stub does not model %s' % sorted(set(FA.UNMODELLED)))
+            if done != ['C'] or len(written) != n or not all(_same(u, v) for u, v in zip(written, rows)):
+                return fail(stage='dump_to_file', rows=repr(rows), observed=repr(written), done=done)
+            got = []
+            P.load_from_file(f, batch_size=lb).subscribe(on_next=got.append, on_error=lambda e: got.append(('ERR', repr(e))), scheduler=ImmediateScheduler())
+            if len(got) != n or not all(_same(u, v) for u, v in zip(got, rows)):
+                return fail(stage='load_from_file', rows=repr(rows), observed=repr(got))
+        return True
+    return mk('parquet_special_values', sig, pre, body)
+
+
 def big(p):
     """larger files: row count and both batch sizes concrete (the control flow of dump / load does not depend on the row values, which stay symbolic)"""
     n, bs, lb = p['n'], p['bs'], p['lb']
@@ -128,7 +172,7 @@ def stub_valid(p):
     return run
 
 
-FAMILIES = {'roundtrip': roundtrip, 'big': big, 'stub_valid': stub_valid}
+FAMILIES = {'special_values': special_values, 'roundtrip': roundtrip, 'big': big, 'stub_valid': stub_valid}
 
 
 def obligations(tier, seed):
@@ -140,5 +184,7 @@ def obligations(tier, seed):
             obs.append(Ob(PROP, 'roundtrip', dict(n=n, path=True), budget=240 if q else 1500, bound=dict(rows=n, file='path + open_obj', dump_batch='1..%d' % (n + 1), load_batch='1..%d' % (n + 1))))
     for (n, bs, lb) in ((17, 8, 5), (20, 16, 32), (33, 32, 7), (10, 3, 4), (64, 9, 64), (65, 64, 3), (130, 64, 7), (300, 300, 50), (257, 1024, 1024)) if q else ((17, 8, 5), (20, 16, 32), (33, 32, 7), (10, 3, 4), (64, 9, 64), (65, 64, 3), (129, 128, 10), (200, 7, 33), (256, 256, 255), (130, 64, 7), (300, 300, 50), (257, 1024, 1024), (1025, 1024, 100), (600, 1, 600)):
         obs.append(Ob(PROP, 'big', dict(n=n, bs=bs, lb=lb), budget=240 if q else 900, group='larger files (concrete sizes, symbolic values)', bound=dict(rows=n, dump_batch=bs, load_batch=lb)))
+    for n, shift in (((3, 3), (4, 0), (6, 4)) if q else ((3, 3), (4, 0), (6, 4), (8, 0), (5, 1))):
+        obs.append(Ob(PROP, 'special_values', dict(n=n, shift=shift), budget=240 if q else 900, group='float corners and nulls', bound=dict(rows=n, float_cells='0.0, -0.0, inf, subnormal, NaN, None', int_cells='symbolic', batch_sizes='symbolic')))
     obs.append(Ob(PROP, 'roundtrip', dict(n=3, _twin='reach'), budget=60, expect='refute'))
     return obs
